@@ -137,7 +137,8 @@ def _case(r, s):
 
 
 class OpGen:
-    def __init__(self, r, model, default_ns):
+    def __init__(self, r, model, default_ns, valid_only=False):
+        self.valid_only = valid_only
         self.r = r
         self.m = model
         self.cmap = {c['name']: c for c in model['classes']}
@@ -146,6 +147,7 @@ class OpGen:
 
     def ns(self, allow_bad=True):
         r = self.r
+        allow_bad = allow_bad and not self.valid_only
         k = r.random()
         if k < 0.4:
             return None
@@ -164,6 +166,7 @@ class OpGen:
         r = self.r
         cands = [c for c in self.m['classes']
                  if assoc is None or c['assoc'] == assoc]
+        allow_bad = allow_bad and not self.valid_only
         if (allow_bad and r.random() < 0.08) or not cands:
             return r.choice(['NoSuchClass', 'C0x', ''])
         return _case(r, r.choice(cands)['name'])
@@ -190,6 +193,7 @@ class OpGen:
 
     def patharg(self, assoc=None, allow_bad=True):
         r = self.r
+        allow_bad = allow_bad and not self.valid_only
         nsarg = self.ns(allow_bad)
         ispec, n = self.inst(nsarg)
         if ispec is None:
@@ -257,8 +261,9 @@ class OpGen:
         if r.random() < 0.15:
             a['OperationTimeout'] = r.choice([0, 5, 40])
         if r.random() < 0.1:
-            a['ContinueOnError'] = r.choice([False, False, True])
-        if r.random() < 0.08:
+            a['ContinueOnError'] = r.choice([False, False, True]) \
+                if not self.valid_only else False
+        if r.random() < 0.08 and not self.valid_only:
             a['FilterQueryLanguage'] = r.choice(['DMTF:FQL', 'WQL'])
             a['FilterQuery'] = r.choice(['K0 = 1', 'x', ''])
 
@@ -277,7 +282,7 @@ class OpGen:
             elif r.random() < 0.7:
                 props[p['name']] = mg.gen_value(r, p['type'],
                                                 p.get('array', False), 0.15)
-        k = r.random()
+        k = r.random() if not self.valid_only else 1.0
         if k < 0.06:
             props['Undeclared'] = {'t': 'string', 'v': 'x'}
         elif k < 0.12 and [n for n in props if not n.startswith('K')]:
@@ -351,7 +356,7 @@ class OpGen:
                 if not p['key'] and r.random() < 0.5:
                     props[p['name']] = mg.gen_value(
                         r, p['type'], p.get('array', False), 0.2)
-            if r.random() < 0.05:
+            if r.random() < 0.05 and not self.valid_only:
                 kp = mg.key_props(self.cmap, c['name'])[0]
                 if kp['type'] == 'string':
                     props[kp['name']] = {'t': 'string', 'v': 'changedkey'}
@@ -475,7 +480,9 @@ class OpGen:
                         a['PropertyList'] = pl
             self.pullargs(a, kind == 'Open')
             if kind == 'Iter' and r.random() < 0.7:
-                a['MaxObjectCount'] = r.choice([1, 2, 3, 100, 0])
+                a['MaxObjectCount'] = r.choice(
+                    [1, 2, 3, 100, 0] if not self.valid_only
+                    else [1, 2, 3, 100])
             return {'op': name, 'a': a}
         if kind in ('Pull', 'CloseEnumeration'):
             opens = [i for i, h in enumerate(history)
@@ -574,8 +581,8 @@ class OpGen:
         raise AssertionError(kind)
 
 
-def gen_program(r, model, default_ns, n):
-    g = OpGen(r, model, default_ns)
+def gen_program(r, model, default_ns, n, valid_only=False):
+    g = OpGen(r, model, default_ns, valid_only)
     ops = []
     for i in range(n):
         ops.append(g.gen(i, ops))
